@@ -72,8 +72,8 @@ VARIANTS = [
     {"name": "R3 sender ack direction not inverted", "file": PC, "expect": "C05.R3",
      "old": "self.send_acks([message.packet_id], ~message.direction)", "new": "self.send_acks([message.packet_id], message.direction)"},
     {"name": "R3 piggy-backed acks sent back to the sender", "file": PC, "expect": "C05.R3",
-     "old": "self.send_acks(effective_acks, message.direction, packet_id=message.packet_id)",
-     "new": "self.send_acks(effective_acks, ~message.direction, packet_id=message.packet_id)"},
+     "old": "self.send_acks(effective_acks, message.direction, packet_id=wire_id)",
+     "new": "self.send_acks(effective_acks, ~message.direction, packet_id=wire_id)"},
     {"name": "R3 sender acked with the translated id", "file": PC, "expect": "C05.R3",
      "old": "            self.send_acks([message.packet_id], ~message.direction)\n",
      "new": "            self.send_acks([fwd_injections.get_effective_id(message.packet_id)], ~message.direction)\n"},
@@ -113,8 +113,8 @@ VARIANTS = [
     {"name": "R4 budget never decremented", "file": BC, "expect": "C05.R4",
      "old": "            resend_info.tries_left -= 1\n", "new": ""},
     {"name": "R4 table written from drop_message", "file": PC, "expect": "C05.R4",
-     "old": "        message.dropped = True\n",
-     "new": "        message.dropped = True\n        self.unacked_reliable.pop((message.direction, message.packet_id), None)\n"},
+     "old": "        fwd_injections.mark_dropped(message.packet_id)\n        message.dropped = True\n",
+     "new": "        fwd_injections.mark_dropped(message.packet_id)\n        message.dropped = True\n        self.unacked_reliable.pop((message.direction, message.packet_id), None)\n"},
     {"name": "P R4 extend -> augmented assignment", "file": BC, "expect": "silent",
      "old": '            effective_acks.extend(x["ID"] for x in message["Packets"])\n',
      "new": '            effective_acks += [x["ID"] for x in message["Packets"]]\n'},
@@ -160,17 +160,17 @@ VARIANTS = [
             "                break\n            new_id -= 1\n"},
     # ------------------------------------------------------------------ R4 resend cadence (strengthening round)
     {"name": "R4 cadence compares the .seconds component of the elapsed time", "file": BC, "expect": "C05.R4",
-     "old": "            if dt.datetime.now() - resend_info.last_resent < dt.timedelta(seconds=self.resend_every):\n",
-     "new": "            elapsed = dt.datetime.now() - resend_info.last_resent\n"
+     "old": "            if _utcnow() - resend_info.last_resent < dt.timedelta(seconds=self.resend_every):\n",
+     "new": "            elapsed = _utcnow() - resend_info.last_resent\n"
             "            if elapsed.seconds < self.resend_every:\n"},
     {"name": "R4 no hold-back between retransmissions", "file": BC, "expect": "C05.R4",
-     "old": "            if dt.datetime.now() - resend_info.last_resent < dt.timedelta(seconds=self.resend_every):\n"
+     "old": "            if _utcnow() - resend_info.last_resent < dt.timedelta(seconds=self.resend_every):\n"
             "                continue\n", "new": ""},
     {"name": "R4 last_resent never restarted", "file": BC, "expect": "C05.R4",
-     "old": "            resend_info.last_resent = dt.datetime.now()\n", "new": ""},
+     "old": "            resend_info.last_resent = _utcnow()\n", "new": ""},
     {"name": "P R4 cadence through total_seconds()", "file": BC, "expect": "silent",
-     "old": "            if dt.datetime.now() - resend_info.last_resent < dt.timedelta(seconds=self.resend_every):\n",
-     "new": "            elapsed = dt.datetime.now() - resend_info.last_resent\n"
+     "old": "            if _utcnow() - resend_info.last_resent < dt.timedelta(seconds=self.resend_every):\n",
+     "new": "            elapsed = _utcnow() - resend_info.last_resent\n"
             "            if elapsed.total_seconds() < self.resend_every:\n"},
     # ------------------------------------------------------------------ helper extraction (strengthening round)
     {"name": "P R1/R2 ack translation extracted into a classmethod helper", "expect": "silent", "edits": [
@@ -321,8 +321,8 @@ VARIANTS = [
     {"name": "P R4 per-entry resend work in a helper behind a due test", "expect": "silent", "edits": [
         {"file": BC, "old": "            msg = copy.copy(resend_info.message)\n", "new": "            self._retry(resend_info)\n\n"
                             "    def _retry(self, resend_info):\n        if True:\n            msg = copy.copy(resend_info.message)\n"},
-        {"file": BC, "old": "                continue\n            resend_info.last_resent = dt.datetime.now()\n",
-         "new": "                return\n            resend_info.last_resent = dt.datetime.now()\n"}]},
+        {"file": BC, "old": "                continue\n            resend_info.last_resent = _utcnow()\n",
+         "new": "                return\n            resend_info.last_resent = _utcnow()\n"}]},
     {"name": "P R2 PacketAck branch behind guard clauses on the name", "file": PC, "expect": "silent",
      "old": "            if message.name == \"PacketAck\":\n"
             "                if not self._rewrite_packet_ack(message, reverse_injections) and not message.acks:\n",
@@ -351,14 +351,14 @@ VARIANTS = [
             "                del self.unacked_reliable[(msg.direction, msg.packet_id)]\n                if not resend_info.completed.done():\n"},
     # ------------------------------------------------------------------ round 8
     {"name": "R4 resend scan stops at the first entry that is not due", "file": BC, "expect": "C05.R4",
-     "old": "            if dt.datetime.now() - resend_info.last_resent < dt.timedelta(seconds=self.resend_every):\n"
+     "old": "            if _utcnow() - resend_info.last_resent < dt.timedelta(seconds=self.resend_every):\n"
             "                continue\n",
-     "new": "            if dt.datetime.now() - resend_info.last_resent < dt.timedelta(seconds=self.resend_every):\n"
+     "new": "            if _utcnow() - resend_info.last_resent < dt.timedelta(seconds=self.resend_every):\n"
             "                break\n"},
     {"name": "P R4 clock and interval hoisted out of the resend scan", "expect": "silent", "edits": [
         {"file": BC, "old": "        for resend_info in list(self.unacked_reliable.values()):\n            # Not time to attempt a resend yet\n"
-                            "            if dt.datetime.now() - resend_info.last_resent < dt.timedelta(seconds=self.resend_every):\n",
-         "new": "        if not self.unacked_reliable:\n            return\n        now = dt.datetime.now()\n"
+                            "            if _utcnow() - resend_info.last_resent < dt.timedelta(seconds=self.resend_every):\n",
+         "new": "        if not self.unacked_reliable:\n            return\n        now = _utcnow()\n"
                 "        interval = dt.timedelta(seconds=self.resend_every)\n"
                 "        for resend_info in list(self.unacked_reliable.values()):\n"
                 "            if now - resend_info.last_resent < interval:\n"}]},
